@@ -114,11 +114,15 @@ pub struct Profile {
     pub prefix: String,
     /// upper bound on the number of top-level declarations (0 = none)
     pub max_decls: usize,
+    /// also write comparisons of an enumeration variable with one of its values (`c = green`).
+    /// While that is a known false rejection (KF-C02-04) the unit is marked `tainted`: its own
+    /// verdict is not judged, its single-fault mutants are
+    pub enum_compare: bool,
 }
 
 impl Default for Profile {
     fn default() -> Self {
-        Profile { max_types: 4, max_fbs: 3, max_funcs: 2, max_progs: 2, config: true, max_stmts: 6, sfc: true, prefix: String::new(), max_decls: 0 }
+        Profile { max_types: 4, max_fbs: 3, max_funcs: 2, max_progs: 2, config: true, max_stmts: 6, sfc: true, prefix: String::new(), max_decls: 0, enum_compare: false }
     }
 }
 
@@ -182,6 +186,8 @@ pub struct Unit {
     pub planted_all: Vec<Planted>,
     /// number of reference edges between top-level declarations (types used, FBs instantiated ...)
     pub ref_edges: usize,
+    /// contains a construct that the pinned tree is known to reject wrongly (see Profile::enum_compare)
+    pub tainted: bool,
 }
 
 pub struct VGen<'a, 't, 'g> {
@@ -210,6 +216,9 @@ pub struct VGen<'a, 't, 'g> {
     /// names declared by the POU being generated / by earlier POUs and globals (reusable elsewhere)
     cur_locals: Vec<String>,
     local_pool: Vec<String>,
+    /// function block instances seen so far: (instance name, index of its type, declaration index)
+    seen_insts: Vec<(String, usize, usize)>,
+    tainted: bool,
 }
 
 const NUM_TYPES: [ElementaryTypeName; 6] = [
@@ -694,6 +703,21 @@ impl<'a, 't, 'g> VGen<'a, 't, 'g> {
         }
     }
     fn expr(&mut self, scope: &[VarInfo], depth: usize) -> ExprKind {
+        if self.p.enum_compare && self.t.ratio(1, 3) {
+            // an enumeration variable compared with one of its values
+            let evars: Vec<(String, usize)> = scope.iter().filter_map(|v| if let VKind::EnumInit(e) = v.kind { Some((v.name.clone(), e)) } else { None }).collect();
+            if !evars.is_empty() {
+                let (v, e) = evars[self.t.below(evars.len())].clone();
+                let vals = self.enums[e].values.clone();
+                let val = vals[self.t.below(vals.len())].clone();
+                if !self.g.want("ENUM_VALUE_IN_COMPARISON") {
+                    self.tainted = true;
+                }
+                let n = self.var_use(&v);
+                let op = if self.t.flag() { CompareOp::Eq } else { CompareOp::Ne };
+                return ExprKind::compare(op, lb(&n), lb(&val));
+            }
+        }
         if depth >= 2 || self.t.ratio(1, 2) {
             return self.operand(scope, depth);
         }
@@ -726,11 +750,32 @@ impl<'a, 't, 'g> VGen<'a, 't, 'g> {
         let mut params = vec![];
         let positional = self.t.ratio(1, 3);
         let mut var_name = inst.clone();
+        for (n, fi) in &insts {
+            if !self.seen_insts.iter().any(|(m, _, d)| m == n && *d == self.cur_decl) {
+                self.seen_insts.push((n.clone(), *fi, self.cur_decl));
+            }
+        }
         if self.site(FaultKind::CallNotInstance) {
-            // a name that is a plain variable (or nothing at all), not a function block instance
-            let m = self.marker("noinstance");
-            self.set_marker(&m);
-            var_name = m;
+            // a name that is nothing at all - or (same rule: "not a variable in scope") an instance
+            // of the same type that is declared in ANOTHER declaration and not here
+            let foreign: Vec<String> = self
+                .seen_insts
+                .iter()
+                .filter(|(n, fi, d)| *fi == f && *d != self.cur_decl && !scope.iter().any(|v| v.name.eq_ignore_ascii_case(n)) && !self.cur_scope_names.iter().any(|x| x.eq_ignore_ascii_case(n)))
+                .map(|(n, _, _)| n.clone())
+                .collect();
+            if !foreign.is_empty() && self.t_free_flag() {
+                let m = self.t_free_pick(&foreign).clone();
+                self.set_marker(&m);
+                if let Some(p) = &mut self.planted {
+                    p.site_class = format!("{}.instance-of-other-declaration", p.site_class);
+                }
+                var_name = m;
+            } else {
+                let m = self.marker("noinstance");
+                self.set_marker(&m);
+                var_name = m;
+            }
         }
         if positional {
             for _ in 0..fb.inputs.len() {
@@ -801,7 +846,18 @@ impl<'a, 't, 'g> VGen<'a, 't, 'g> {
         let value = match kind {
             VKind::EnumInit(e) => {
                 let vals = self.enums[e].values.clone();
-                lb(&vals[self.t.below(vals.len())])
+                let v = vals[self.t.below(vals.len())].clone();
+                // the assigned name may also be the fault: neither a variable nor a value of any enumeration
+                if self.g.want("UNDECLARED_NAME_ASSIGNED_TO_ENUMERATION_VARIABLE") && self.site(FaultKind::UndeclaredVar) {
+                    let m = self.marker("novalue");
+                    self.set_marker(&m);
+                    if let Some(p) = &mut self.planted {
+                        p.site_class = format!("{}.assigned-to-enum-variable", p.site_class);
+                    }
+                    lb(&m)
+                } else {
+                    lb(&v)
+                }
             }
             VKind::ArrayInline => {
                 let others: Vec<String> = scope.iter().filter(|v| matches!(v.kind, VKind::ArrayInline)).map(|v| v.name.clone()).collect();
@@ -1020,6 +1076,14 @@ impl<'a, 't, 'g> VGen<'a, 't, 'g> {
             vars.push(vd(&n, VariableType::Var, DeclarationQualifier::Unspecified, simple(ty.clone().into(), c)));
             scope.push(VarInfo { name: n, kind: VKind::Simple(ty) });
         }
+        if !self.fbs.is_empty() && self.t.ratio(1, 2) && self.g.want("FUNCTION_WITH_FB_IN_OUT") {
+            // a function may receive a function block instance by reference and invoke it
+            let n = self.fresh_local();
+            let f = self.t.below(self.fbs.len());
+            vars.push(vd(&n, VariableType::InOut, DeclarationQualifier::Unspecified, InitialValueAssignmentKind::LateResolvedType(Type::from(self.fbs[f].name.as_str()))));
+            scope.push(VarInfo { name: n, kind: VKind::Fb(f) });
+            self.ref_edges += 1;
+        }
         self.cur_class = "func.body".into();
         let mut body = self.stmts(&scope, Some(&name), 0, 0);
         body.push(StmtKind::assignment(Variable::named(&name), self.expr(&scope, 0)));
@@ -1195,6 +1259,8 @@ pub fn gen_unit_multi(t: &mut Tape, gates: &Gates, profile: &Profile, fault: Vec
         cur_scope_names: vec![],
         cur_locals: vec![],
         local_pool: vec![],
+        seen_insts: vec![],
+        tainted: false,
     };
     let mut out = vec![];
     g.plan_globals();
@@ -1214,6 +1280,10 @@ pub fn gen_unit_multi(t: &mut Tape, gates: &Gates, profile: &Profile, fault: Vec
             g.gen_fb(&mut out);
         }
     }
+    // sometimes one more function after the function blocks (it can take an instance by reference)
+    if nfb > 0 && profile.max_funcs > 0 && room(&out) && g.t.ratio(1, 4) {
+        g.gen_func(&mut out);
+    }
     let np = g.t.count(if out.is_empty() { 1 } else { 0 }, profile.max_progs);
     for _ in 0..np {
         if room(&out) || out.is_empty() {
@@ -1227,7 +1297,7 @@ pub fn gen_unit_multi(t: &mut Tape, gates: &Gates, profile: &Profile, fault: Vec
     if let Some(p) = g.planted.clone() {
         all.push(p);
     }
-    Unit { lib: Library { elements: out }, sites: g.sites, planted: g.planted, planted_all: all, ref_edges: g.ref_edges }
+    Unit { lib: Library { elements: out }, sites: g.sites, planted: g.planted, planted_all: all, ref_edges: g.ref_edges, tainted: g.tainted }
 }
 
 pub fn gen_unit(t: &mut Tape, gates: &Gates, profile: &Profile) -> Unit {
